@@ -79,6 +79,8 @@ impl StateMachine<'_> {
     fn enter_merge_conflict(&mut self, merge_parents: &MergeParents) -> bool {
         use State::*;
         if let Some(commit) = parse_merge_marker(&self.line, "++<<<<<<<") {
+            // Lines of the subhunk preceding the conflict region must be rendered before it.
+            self.painter.paint_buffered_minus_and_plus_lines();
             self.state = MergeConflict(merge_parents.clone(), Ours);
             self.painter.merge_conflict_commit_names[Ours] = Some(commit.to_string());
             true
